@@ -201,6 +201,7 @@ def merged_before_delete(ctx, res, rule):
 def _byte_models(cls, boundary, examined):
     def get(I, a, n, env):
         examined.append(A.show(a[1]))
+        I.effects.append(("examine", A.show(a[1]), [], n))
         if cls is None:
             return A.Variant("None")
         return A.Variant("Some", [cls])
@@ -641,3 +642,68 @@ def block_ranges(ctx, res, rule):
             res.add(Finding(rule, fn, "first-line-start", "`start_byte_pos + 1` is used as a line start without establishing that the seam byte is the line break", loc=loc))
     elif init is not None:
         res.add(Finding(rule, fn, "first-line-start", "first line start is `%s`, expected the byte after the seam line break" % T.render(init), loc=loc))
+
+
+# ------------------------------------------------------------------------------------------------ byte 0 (C12.R3 / C16.R3)
+
+def byte0_examined(ctx, res, rule):
+    """In a backward scan, the exit on `cursor == 0` must not precede the examination of index 0."""
+    P = ctx.lib
+    b = P.fn("find_prev_line_break_pos")
+    cb = P.fn("line_break_pos_finder::check")
+    fn = fshort(b)
+    loops = [n for n in T.nodes(b["tree"], "loop")]
+    if len(loops) != 1:
+        res.cannot(rule, fn, "loop", "expected one scan loop", T.loc(b["tree"]))
+        return
+    loop = loops[0]
+    paths = 0
+    bad = 0
+    for cls in (A.Lit(10, "byte"), A.Lit(32, "byte"), A.CharClass(None, excluded={10, 32, 9})):
+        for pause in (True, False):
+            examined = []
+            I = A.Interp(P, inline=[cb["def_path"]], models=_byte_models(cls, True, examined))
+            I.lazy_locals = True
+
+            def run(J):
+                env = {}
+                for p in b["params"]:
+                    if p["pat"]["p"] == "bind":
+                        env[p["pat"]["id"]] = A.Lit(pause) if p["pat"]["name"] == "pause_on_char" else A.Sym(p["pat"]["name"], p["ty"])
+                # the scan variable starts as a symbol `cursor`
+                return J.ev(loop["body"], env)
+            try:
+                outs = I.explore(run)
+            except A.Cannot as e:
+                res.cannot(rule, fn, "loop-body", str(e), T.loc(loop))
+                return
+            for o in outs:
+                at_zero = None
+                in_range = True
+                for k, v in o["decisions"].items():
+                    if k == "ord((cursor - 1), 0)":
+                        at_zero = (v == "=")
+                    if k == "ord((cursor - 1), bytes.len())" and v in ("=", ">"):
+                        in_range = False
+                if at_zero is True and in_range:
+                    paths += 1
+                    # on this path the scan stands on byte 0 of a non-empty buffer
+                    # (examined is shared per exploration: non-empty iff bytes.get was reached on some path; re-run precisely)
+                    reached = any(e[0] == "examine" and e[1] == "(cursor - 1)" for e in o["effects"])
+                    if not reached:
+                        bad += 1
+    if paths == 0:
+        res.cannot(rule, fn, "byte0", "no path on which the backward scan stands on index 0 was found (atoms changed?)", T.loc(loop))
+        return
+    if bad:
+        res.add(Finding(rule, fn, "byte0-examined", "the backward scan leaves on `cursor == 0` without examining byte 0 (%d of %d paths): a line break at the very "
+                        "start of the file is never found" % (bad, paths), loc=T.loc(loop)))
+    else:
+        res.holds(rule, fn, "byte0-examined", "%d paths standing on index 0 all examine the byte" % paths)
+
+
+def _path_examined(o):
+    # the inlined check() consults is_char_boundary / bytes.get through models, which leave no effect;
+    # a path examined the byte iff its outcome depends on the class: it either reports, or continues, or the
+    # decision list contains nothing after the range test.  We mark examination explicitly instead:
+    return o.get("examined", False)
